@@ -539,6 +539,8 @@ register_function(lambda lo, hi: Array(list(range(lo, hi+1))),
                   (Integral, Integral),
                   "Returns an array of the integers lo, lo+1, ..., hi.")
 def ka_range(lo, hi, step):
+    if not dispatch("<", (0, step)):
+        raise FunctionArgError(f"Step size of range must be positive (was {step}).")
     if not dispatch("<=", (lo, hi)):
         raise FunctionArgError(f"Lower bound of range (was {lo}) must be less than or equal to upper bound (was {hi}).")
     result = []
